@@ -79,6 +79,19 @@ def apply(toks, au, opts):
                 out += _call("vx_lossy_string", [toks[i + 5:k]], t.ws)
                 i = k + 5
                 continue
+        # X.ends_with(P) / X.starts_with(P)  with P a string literal or a CONSTANT  ->  vx_str_ends_with(&X, P) / vx_str_starts_with(&X, P)
+        #   (std `str` methods are outside Verus' reach; the shims give them uninterpreted meanings.  Not in string-model items, where
+        #   X is a VStr with real contracts.)
+        if not opts.get("strmodel") and is_p(t, ".") and toks[i + 1].kind == "id" and toks[i + 1].text in ("ends_with", "starts_with") and is_p(toks[i + 2], "(") \
+                and is_p(toks[i + 4], ")") and (toks[i + 3].kind == "str" or (toks[i + 3].kind == "id" and toks[i + 3].text.isupper())):
+            s_ = _expr_start(out)
+            recv = out[s_:]
+            ws0 = recv[0].ws
+            del out[s_:]
+            au.note("R", f"X.{toks[i+1].text}(P) -> vx_str_{toks[i+1].text}(&X, P)")
+            out += _call("vx_str_" + toks[i + 1].text, [[Tok("p", "&", "")] + [_w(recv[0], "")] + recv[1:], [toks[i + 3]]], ws0)
+            i += 5
+            continue
         # String::from("literal")  ->  vx_string_from("literal")        Vec::from(E)  ->  vx_slice_to_vec(E)   (E a byte slice; anything else is a type error -> undecided)
         if is_id(t, "String") and texts(toks, i + 1, 4) == [":", ":", "from", "("] and toks[i + 5].kind == "str" and is_p(toks[i + 6], ")"):
             au.note("R", 'String::from("lit") -> vx_string_from("lit")')
